@@ -52,6 +52,13 @@ def h_context(params, vals, ctx):
     code, pos = vals["S_1"], vals["POS"]
     require(len(code) <= params.get("maxlen", 3))
     require(0 <= pos <= len(code))
+    if params.get("alphabet"):
+        # small alphabet, realised first: stays decidable even if the code under test uses string methods that
+        # CrossHair can only handle by realisation
+        for ch in code:
+            require(ch in params["alphabet"])
+        code = concretize(code)
+        pos = concretize(pos)
     old = shims.FORMAT_SHIM_ENABLED[0]
     shims.FORMAT_SHIM_ENABLED[0] = False  # number formatting is the subject here
     try:
@@ -235,6 +242,8 @@ def obligations(tier, seed):
     rnd = random.Random(1700 + seed)
     obs = [Ob(oid="context-repr", harness=P + "h_context", params={"maxlen": 4 if tier == "thorough" else 3}, vars={"S_1": "str", "POS": "int"},
               timeout=3000 if tier == "thorough" else 900, per_path=120, pre="every string up to the length bound and every position")]
+    obs.append(Ob(oid="context-repr/alphabet", harness=P + "h_context", params={"maxlen": 3, "alphabet": "a\t\n \u0416"}, vars={"S_1": "str", "POS": "int"},
+                  timeout=1500, per_path=120, pre="every string of <= 3 characters over {a, TAB, LF, blank, Cyrillic Zhe} and every position (realised)"))
     combos = [(f[0], i, pl) for f in _faults() for i in range(len(PREFIXES)) for pl in ("main", "second", "included")]
     if tier == "quick":
         rnd.shuffle(combos)
